@@ -1277,18 +1277,8 @@ func (s *swamp) createMetaForIncrementResponse(treasureObj treasure.Treasure) *I
 
 func (s *swamp) IncrementUint8(key string, i uint8, condition *IncrementUInt8Condition, metadataRequestIfNotExist *IncrementMetadataRequest, metadataRequestIfExist *IncrementMetadataRequest) (newValue uint8, incremented bool, metadataResponse *IncrementMetadataResponse, err error) {
 
-	// get-or-create the treasure for this key
-	treasureObj := s.beaconKey.Get(key)
-	if treasureObj == nil {
-		treasureObj = s.CreateTreasure(key)
-	}
-
-	// acquire the guard before inspecting or mutating the treasure. The existence/type check
-	// must happen inside the guard: there is a TOCTOU window between beaconKey.Get and
-	// CreateTreasure where another goroutine can publish the treasure into the beacon. Without
-	// the in-guard re-check, the "new treasure" branch would call SetContentXxx(0) on a treasure
-	// that already holds a value, silently resetting the counter and corrupting return values.
-	guardID := treasureObj.StartTreasureGuard(true)
+	// get-or-create the treasure that is currently stored under the key, with its guard held
+	treasureObj, guardID, _ := s.lockCurrentTreasure(key)
 	defer treasureObj.ReleaseTreasureGuard(guardID)
 
 	switch treasureObj.GetContentType() {
@@ -1355,14 +1345,8 @@ func (s *swamp) IncrementUint8(key string, i uint8, condition *IncrementUInt8Con
 
 func (s *swamp) IncrementUint16(key string, i uint16, condition *IncrementUInt16Condition, metadataRequestIfNotExist *IncrementMetadataRequest, metadataRequestIfExist *IncrementMetadataRequest) (newValue uint16, incremented bool, metadataResponse *IncrementMetadataResponse, err error) {
 
-	// get-or-create the treasure for this key. See IncrementUint8 for the rationale behind the
-	// in-guard re-check that follows.
-	treasureObj := s.beaconKey.Get(key)
-	if treasureObj == nil {
-		treasureObj = s.CreateTreasure(key)
-	}
-
-	guardID := treasureObj.StartTreasureGuard(true)
+	// get-or-create the treasure that is currently stored under the key, with its guard held
+	treasureObj, guardID, _ := s.lockCurrentTreasure(key)
 	defer treasureObj.ReleaseTreasureGuard(guardID)
 
 	switch treasureObj.GetContentType() {
@@ -1428,14 +1412,8 @@ func (s *swamp) IncrementUint16(key string, i uint16, condition *IncrementUInt16
 }
 func (s *swamp) IncrementUint32(key string, i uint32, condition *IncrementUInt32Condition, metadataRequestIfNotExist *IncrementMetadataRequest, metadataRequestIfExist *IncrementMetadataRequest) (newValue uint32, incremented bool, metadataResponse *IncrementMetadataResponse, err error) {
 
-	// get-or-create the treasure for this key. See IncrementUint8 for the rationale behind the
-	// in-guard re-check that follows.
-	treasureObj := s.beaconKey.Get(key)
-	if treasureObj == nil {
-		treasureObj = s.CreateTreasure(key)
-	}
-
-	guardID := treasureObj.StartTreasureGuard(true)
+	// get-or-create the treasure that is currently stored under the key, with its guard held
+	treasureObj, guardID, _ := s.lockCurrentTreasure(key)
 	defer treasureObj.ReleaseTreasureGuard(guardID)
 
 	switch treasureObj.GetContentType() {
@@ -1500,14 +1478,8 @@ func (s *swamp) IncrementUint32(key string, i uint32, condition *IncrementUInt32
 
 }
 func (s *swamp) IncrementUint64(key string, i uint64, condition *IncrementUInt64Condition, metadataRequestIfNotExist *IncrementMetadataRequest, metadataRequestIfExist *IncrementMetadataRequest) (newValue uint64, incremented bool, metadataResponse *IncrementMetadataResponse, err error) {
-	// get-or-create the treasure for this key. See IncrementUint8 for the rationale behind the
-	// in-guard re-check that follows.
-	treasureObj := s.beaconKey.Get(key)
-	if treasureObj == nil {
-		treasureObj = s.CreateTreasure(key)
-	}
-
-	guardID := treasureObj.StartTreasureGuard(true)
+	// get-or-create the treasure that is currently stored under the key, with its guard held
+	treasureObj, guardID, _ := s.lockCurrentTreasure(key)
 	defer treasureObj.ReleaseTreasureGuard(guardID)
 
 	switch treasureObj.GetContentType() {
@@ -1572,14 +1544,8 @@ func (s *swamp) IncrementUint64(key string, i uint64, condition *IncrementUInt64
 }
 func (s *swamp) IncrementInt8(key string, i int8, condition *IncrementInt8Condition, metadataRequestIfNotExist *IncrementMetadataRequest, metadataRequestIfExist *IncrementMetadataRequest) (newValue int8, incremented bool, metadataResponse *IncrementMetadataResponse, err error) {
 
-	// get-or-create the treasure for this key. See IncrementUint8 for the rationale behind the
-	// in-guard re-check that follows.
-	treasureObj := s.beaconKey.Get(key)
-	if treasureObj == nil {
-		treasureObj = s.CreateTreasure(key)
-	}
-
-	guardID := treasureObj.StartTreasureGuard(true)
+	// get-or-create the treasure that is currently stored under the key, with its guard held
+	treasureObj, guardID, _ := s.lockCurrentTreasure(key)
 	defer treasureObj.ReleaseTreasureGuard(guardID)
 
 	switch treasureObj.GetContentType() {
@@ -1644,14 +1610,8 @@ func (s *swamp) IncrementInt8(key string, i int8, condition *IncrementInt8Condit
 
 }
 func (s *swamp) IncrementInt16(key string, i int16, condition *IncrementInt16Condition, metadataRequestIfNotExist *IncrementMetadataRequest, metadataRequestIfExist *IncrementMetadataRequest) (newValue int16, incremented bool, metadataResponse *IncrementMetadataResponse, err error) {
-	// get-or-create the treasure for this key. See IncrementUint8 for the rationale behind the
-	// in-guard re-check that follows.
-	treasureObj := s.beaconKey.Get(key)
-	if treasureObj == nil {
-		treasureObj = s.CreateTreasure(key)
-	}
-
-	guardID := treasureObj.StartTreasureGuard(true)
+	// get-or-create the treasure that is currently stored under the key, with its guard held
+	treasureObj, guardID, _ := s.lockCurrentTreasure(key)
 	defer treasureObj.ReleaseTreasureGuard(guardID)
 
 	switch treasureObj.GetContentType() {
@@ -1716,14 +1676,8 @@ func (s *swamp) IncrementInt16(key string, i int16, condition *IncrementInt16Con
 }
 func (s *swamp) IncrementInt32(key string, i int32, condition *IncrementInt32Condition, metadataRequestIfNotExist *IncrementMetadataRequest, metadataRequestIfExist *IncrementMetadataRequest) (newValue int32, incremented bool, metadataResponse *IncrementMetadataResponse, err error) {
 
-	// get-or-create the treasure for this key. See IncrementUint8 for the rationale behind the
-	// in-guard re-check that follows.
-	treasureObj := s.beaconKey.Get(key)
-	if treasureObj == nil {
-		treasureObj = s.CreateTreasure(key)
-	}
-
-	guardID := treasureObj.StartTreasureGuard(true)
+	// get-or-create the treasure that is currently stored under the key, with its guard held
+	treasureObj, guardID, _ := s.lockCurrentTreasure(key)
 	defer treasureObj.ReleaseTreasureGuard(guardID)
 
 	switch treasureObj.GetContentType() {
@@ -1789,17 +1743,8 @@ func (s *swamp) IncrementInt32(key string, i int32, condition *IncrementInt32Con
 
 func (s *swamp) IncrementInt64(key string, i int64, condition *IncrementInt64Condition, metadataRequestIfNotExist *IncrementMetadataRequest, metadataRequestIfExist *IncrementMetadataRequest) (newValue int64, incremented bool, metadataResponse *IncrementMetadataResponse, err error) {
 
-	// get-or-create the treasure for this key. See IncrementUint8 for the rationale behind the
-	// in-guard re-check that follows.
-	treasureObj := s.beaconKey.Get(key)
-	if treasureObj == nil {
-		treasureObj = s.CreateTreasure(key)
-	}
-	if verifhook.Enabled {
-		verifhook.Point("inc.fetched", key)
-	}
-
-	guardID := treasureObj.StartTreasureGuard(true)
+	// get-or-create the treasure that is currently stored under the key, with its guard held
+	treasureObj, guardID, _ := s.lockCurrentTreasure(key)
 	defer treasureObj.ReleaseTreasureGuard(guardID)
 	if verifhook.Enabled {
 		verifhook.Point("inc.acquired", key)
@@ -1888,14 +1833,8 @@ type IncrementFloat64Condition struct {
 
 func (s *swamp) IncrementFloat32(key string, f float32, condition *IncrementFloat32Condition, metadataRequestIfNotExist *IncrementMetadataRequest, metadataRequestIfExist *IncrementMetadataRequest) (newValue float32, incremented bool, metadataResponse *IncrementMetadataResponse, err error) {
 
-	// get-or-create the treasure for this key. See IncrementUint8 for the rationale behind the
-	// in-guard re-check that follows.
-	treasureObj := s.beaconKey.Get(key)
-	if treasureObj == nil {
-		treasureObj = s.CreateTreasure(key)
-	}
-
-	guardID := treasureObj.StartTreasureGuard(true)
+	// get-or-create the treasure that is currently stored under the key, with its guard held
+	treasureObj, guardID, _ := s.lockCurrentTreasure(key)
 	defer treasureObj.ReleaseTreasureGuard(guardID)
 
 	switch treasureObj.GetContentType() {
@@ -1963,14 +1902,8 @@ func (s *swamp) IncrementFloat32(key string, f float32, condition *IncrementFloa
 
 func (s *swamp) IncrementFloat64(key string, f float64, condition *IncrementFloat64Condition, metadataRequestIfNotExist *IncrementMetadataRequest, metadataRequestIfExist *IncrementMetadataRequest) (newValue float64, incremented bool, metadataResponse *IncrementMetadataResponse, err error) {
 
-	// get-or-create the treasure for this key. See IncrementUint8 for the rationale behind the
-	// in-guard re-check that follows.
-	treasureObj := s.beaconKey.Get(key)
-	if treasureObj == nil {
-		treasureObj = s.CreateTreasure(key)
-	}
-
-	guardID := treasureObj.StartTreasureGuard(true)
+	// get-or-create the treasure that is currently stored under the key, with its guard held
+	treasureObj, guardID, _ := s.lockCurrentTreasure(key)
 	defer treasureObj.ReleaseTreasureGuard(guardID)
 
 	switch treasureObj.GetContentType() {
@@ -2100,6 +2033,34 @@ func (s *swamp) WaitForGracefulClose(ctx context.Context) error {
 // CountTreasuresWaitingForWriter returns the number of treasures that are waiting for the writer to write them to the chroniclerInterface
 func (s *swamp) CountTreasuresWaitingForWriter() int {
 	return s.treasuresWaitingForWriter.Count()
+}
+
+// lockCurrentTreasure returns the treasure object that is currently stored under the key (or the in-flight
+// object of CreateTreasure when there is none yet) with its guard held. The object has to be fetched before
+// its guard can be taken, so once the guard is held the function checks that the object is still the one
+// under the key: a concurrent delete may have removed it in between, and continuing on that orphan would
+// compute from a deleted value and re-insert it on Save. In that case it releases the guard and starts over.
+func (s *swamp) lockCurrentTreasure(key string) (treasureObj treasure.Treasure, guardID guard.ID, created bool) {
+	for {
+		created = false
+		treasureObj = s.beaconKey.Get(key)
+		if treasureObj == nil {
+			treasureObj = s.CreateTreasure(key)
+			created = true
+		}
+		if verifhook.Enabled {
+			verifhook.Point("inc.fetched", key)
+		}
+		guardID = treasureObj.StartTreasureGuard(true)
+		if current := s.beaconKey.Get(key); current == treasureObj {
+			return treasureObj, guardID, created
+		} else if current == nil {
+			if inFlight, ok := s.creatingTreasures.Load(key); ok && inFlight.(treasure.Treasure) == treasureObj {
+				return treasureObj, guardID, created
+			}
+		}
+		treasureObj.ReleaseTreasureGuard(guardID)
+	}
 }
 
 // CreateTreasure creates a new Treasure object if it is not existing in the swamp or returns with the existing one.
@@ -2942,6 +2903,10 @@ func (s *swamp) deleteHandler(key string, shadowDelete bool) (deletedTreasure tr
 	defer treasureObj.ReleaseTreasureGuard(guardID)
 	if verifhook.Enabled {
 		verifhook.Point("del.acquired", key)
+	}
+	// somebody else may have deleted (or replaced) the object while we waited for its guard
+	if s.beaconKey.Get(key) != treasureObj {
+		return nil
 	}
 
 	// Még változtatás előtt lemásoljuk a Treasure-t, hogy egy clone-t készíthessünk róla, hogy a törölt treasure-t minden
